@@ -14,7 +14,7 @@ from vf.api import Case, T, AND, OR, NOT, IMPLIES, IFF, EQ
 from props import etsi_matrices as ETSI
 from props.C05 import ref_crc, bits_to_int
 from props.C06 import ref_encode
-from props.pdu_common import KINDS, DOCUMENTED, ctor_kwargs, concrete_member
+from props.pdu_common import KINDS, DOCUMENTED, ctor_kwargs, concrete_member, public_fields, feq
 from okdmr.dmrlib.etsi.layer2.pdu.slot_type import SlotType
 from okdmr.dmrlib.etsi.layer2.pdu.embedded_signalling import EmbeddedSignalling
 from okdmr.dmrlib.etsi.layer2.pdu.rate12_data import Rate12DataTypes
@@ -113,6 +113,16 @@ def h_crc_pdu(hx, kind):
     same = AND(yb[:lo] == b[:lo], yb[hi:] == b[hi:]) if len(yb) == len(b) else 0
     known[NORMALISED + ":" + kind.split("-")[0]] = NOT(same)
     hx.prove(IFF(getattr(x, attr), truth), "%s: %s <=> the received check field equals the check value of the received bits" % (kind, attr), known=known)
+    # "never a silently accepted PDU with different field values": every field of an accepted PDU is a function of the bits the check is computed
+    # over (the PDU's own serialisation) - a field read from received bits that the serialisation drops would change under corruption the check cannot see
+    st4, p2 = hx.guard(k.decode, yb.copy())
+    hx.prove(st4 == "ok", "%s: the serialisation of a decoded PDU decodes" % kind)
+    if st4 == "ok":
+        for f in public_fields(x):
+            if f in k.check_attrs or f == attr:
+                continue
+            hx.prove(IMPLIES(getattr(x, attr), feq(getattr(x, f), getattr(p2, f, None))),
+                     "%s: field %s of an accepted PDU is determined by the bits its check covers (it survives serialise -> parse)" % (kind, f))
     # serialise what the library builds from these fields (check field left to the library) and parse it back
     kw, _ = ctor_kwargs(k, x)
     st2, g = hx.guard(k.cls, **kw)
